@@ -161,6 +161,11 @@ def run(ctx: Ctx, env):
                       "a call in another namespace is translated as the built-in of the same name", d.where,
                       "geo.length(x) eq 1 / foo.length(a, b) eq 1")
 
+            pp = H.dispatch_passes_positional(vcls)
+            ctx.check(pp is not False, "R3.call-arguments-reach-the-handler", f"{vs}.visit_Call",
+                      f"[{vs}] no path of visit_Call hands the call's positional arguments (node.args) to the {d.prefix}* handler: the arguments "
+                      "of every function call are missing from the translation (or every call is refused)", d.where, "length(name) eq 4")
+
         # ---- R10 names written in the filter must not become Python keyword names unchecked ---------------------------------
         call_paths = H.eval_visit(vcls, "Call") or []
         for p in call_paths:
